@@ -59,7 +59,11 @@ def build(V, scheme, nfff, record=None):
     from yadism.runner import Runner
 
     yadism.log.silent_mode = True
-    t, o = cards(V, scheme, nfff)
+    t, o = cards(V, scheme, nfff, pto=2)
+    if scheme == "ZM-VFNS":
+        # flavour-tagged massless observables next to the inclusive one: their coefficient functions live in the same nf
+        for extra in ("F2_charm", "FL_bottom", "F3_top"):
+            o["observables"][extra] = [dict(x=0.1, Q2=V["Q2"])]
     seen_nf = []
 
     def rec_common(self, ker_orders, nf):
@@ -84,7 +88,42 @@ def build(V, scheme, nfff, record=None):
         ks = comb.collect_elems()
         form = {(k_[0][0], k_[0][1], k_[1]): v for k_, v in cm.linear_form(ks).items()}
         esf_.compute_local()
+        tagged = []
+        for extra in ("F2_charm", "FL_bottom", "F3_top"):
+            if extra in r.observables:
+                for k_ in cf.Combiner(r.observables[extra].elements[0]).collect_elems():
+                    tagged.append((extra, type(k_.coeff).__name__, getattr(k_.coeff, "nf", None)))
+    seen_nf = SeenNf(seen_nf)
+    seen_nf.tagged = tagged  # (observable, channel class, nf of the coefficient function)
     return comb.nf, form, seen_nf
+
+
+class SeenNf(list):
+    tagged = ()
+
+
+def replay_tagged(args):
+    import yadism.coefficient_functions as cf
+    import yadism.log
+    from yadism.runner import Runner
+
+    yadism.log.silent_mode = True
+    V = args["values"]
+    t, o = cards(V, "ZM-VFNS", 4, pto=2)
+    for extra in ("F2_charm", "FL_bottom", "F3_top"):
+        o["observables"][extra] = [dict(x=0.1, Q2=V["Q2"])]
+    try:
+        r = Runner(t, o)
+    except ValueError as e:
+        return False, f"rejected: {e}"
+    nf = cf.Combiner(r.observables["F2_total"].elements[0]).nf
+    bad = []
+    for extra in ("F2_charm", "FL_bottom", "F3_top"):
+        for k_ in cf.Combiner(r.observables[extra].elements[0]).collect_elems():
+            n_ = getattr(k_.coeff, "nf", None)
+            if n_ is not None and n_ != nf:
+                bad.append((extra, type(k_.coeff).__name__, n_))
+    return (True, f"ZM-VFNS at {V}: nf={nf}, but {bad[:4]}") if bad else (False, "all coefficient functions in the active nf")
 
 
 def replay_nf(args):
@@ -132,7 +171,7 @@ def replay_beta(args):
     return False, "beta0 follows nf"
 
 
-REPLAYERS = {"nf": replay_nf, "svnf": replay_svnf, "beta": replay_beta}
+REPLAYERS = {"tagged": replay_tagged, "nf": replay_nf, "svnf": replay_svnf, "beta": replay_beta}
 
 
 def vals(ctx, model, tag=""):
@@ -187,6 +226,13 @@ def run(chk, only=None):
                     chk.report("svnf:ZM-VFNS", f"scale-variation manager got nf={seen_nf}, coefficient functions use {nf}", "svnf",
                                dict(scheme="ZM-VFNS", nfff=4, values=vals(ctx, None)))
                 forms.setdefault(nf, []).append((i, form))
+                chk.obligations += 1
+                badt = [t_ for t_ in seen_nf.tagged if t_[2] is not None and t_[2] != nf]
+                if not badt:
+                    chk.discharged += 1
+                else:
+                    chk.report("nf:ZM-VFNS:tagged", f"ZM-VFNS with nf={nf}: coefficient functions of flavour-tagged observables are built for another nf: {badt[:3]}",
+                               "tagged", dict(values=vals(ctx, None)))
             chk.obligations += 1
             if seen == {3, 4, 5, 6}:
                 chk.discharged += 1
